@@ -207,10 +207,12 @@ func postBlock(fw *formatWriter, source []byte, cursor *commonmark.Cursor) {
 			fw.s("\n")
 		}
 	case commonmark.ListItemKind:
-		if fw.startedLine || !b.IsTightList() {
-			// An item of a tight list that ends in a nested list
-			// has already ended its last line;
-			// a blank line there would make the list loose.
+		if fw.startedLine {
+			// An item that ends in a nested list or (in a loose list)
+			// in a paragraph has already ended its last line;
+			// a blank line there would make an enclosing tight list loose.
+			// Items of a loose list are separated by the blank line
+			// written before each item but the first.
 			fw.s("\n")
 		}
 	case commonmark.IndentedCodeBlockKind, commonmark.FencedCodeBlockKind:
